@@ -724,7 +724,10 @@ class HTTPConnectionPool(ConnectionPool, RequestMethods):
         if url.startswith("/"):
             url = to_str(_encode_target(url))
         else:
-            url = to_str(parsed_url.url)
+            # Absolute-form target (forwarding proxy): neither the userinfo
+            # nor the fragment belongs on the wire (RFC 9110, sections 4.2.4
+            # and 7.1); http.client also derives the Host header from it.
+            url = to_str(parsed_url._replace(auth=None, fragment=None).url)
 
         conn = None
 
